@@ -163,6 +163,29 @@ theorem expand_response_value (R : RF K) (env : Env K) (hE : IsExp env) (hA : Po
   expandResponse_value R env hE.1
 example : Poly.eval exQ.A envQ.x ≠ 0 := by norm_num [exQ, envQ, Poly.eval]
 
+/-! ## 5b. `canonical` with the unit-factor branches of the code -/
+
+/-- **canonical_fc_branches_value**: `canonical(factor_const=True)` as the code builds it — `1/D` omitted when `D == 1`, the
+    gain prefix `K` (gain · delay factor) folded in only `if K != 1`, the undefined factor attached where the SOURCE attaches it
+    (`canonFCUndefAt`, read by the translator: "top" = unconditionally).  Covers the branch gain = 1, no delay, undefined factor
+    present, where an attachment under the `K != 1` test would drop the factor. -/
+theorem canonical_fc_branches_value (R : RF K) (env : Env K) (hE : IsExp env) (hA : Poly.eval R.A env.x ≠ 0) :
+    (canonicalBr (sgn canonicalFCSign) true canonFCSkip canonFCUndefAt R).eval env = R.value env :=
+  canonicalBr_fc_value R env (Or.inl (by simp [sgn, canonicalFCSign])) hE.1 hA
+/-- `(x² + 3x + 2)/(x² + 7x + 12) · U(x)`: unit gain, no delay, an undefined factor — the `K == 1` branch -/
+def exU : RF ℚ := ⟨[2, 3, 1], [12, 7, 1], 0, 1⟩
+example : Poly.eval exU.A envQ.x ≠ 0 := by norm_num [exU, envQ, Poly.eval]
+example : (decide (exU.delay = 0) && eqConst (lc exU.B / lc exU.A) 1) = true := by decide +kernel
+
+/-- **canonical_branches_value**: `canonical(factor_const=False)` with `if D == 1` / `if N == 1` and the undefined factor
+    attached where the source attaches it. -/
+theorem canonical_branches_value (R : RF K) (env : Env K) (hE : IsExp env) (hA : Poly.eval R.A env.x ≠ 0) :
+    (canonicalBr (sgn canonicalSign) false canonSkip canonUndefAt R).eval env = R.value env :=
+  canonicalBr_value R env (Or.inl (by simp [sgn, canonicalSign])) hE.1 hA
+/-- `1/(x + 3) · U(x)`: the `N == 1` branch -/
+example : polyIsConst (smul (1 / lc ([3, 1] : List ℚ)) ([1] : List ℚ)) 1 = true := by decide +kernel
+example : Poly.eval ([3, 1] : List ℚ) envQ.x ≠ 0 := by norm_num [envQ, Poly.eval]
+
 /-! ## 6. `simplify_factors`, `simplify_terms`: the loops around SymPy's simplifier
 
   `simp` stands for `sympy.simplify`; what is assumed of it is only that it keeps the value AT THE POINT
